@@ -9,7 +9,7 @@
    zero-amount AddFT (touch) only if [tch = true].  [good s] = the two invariants of reachable states. *)
 From stdpp Require Import gmap.
 From V.Base Require Import Hex BigEndian.
-From V.C04 Require Import Model Harness Sim Undo Roundtrip Steps Nested Observe Refute Root.
+From V.C04 Require Import Model Harness Sim Undo Roundtrip Steps Nested Observe Refute Root RootHash Cong Totality.
 Local Open Scope N_scope.
 
 (* Headline.  From any state satisfying the reachable-state invariants, with Proposal002 active: after
@@ -83,6 +83,115 @@ Theorem C04_root_equal_fixed_empty : forall s body,
   fin_trie true true (after_revert body s) = fin_trie true true s.
 Proof. intros s body [Hw Hb]. apply root_equal_fixed_empty; auto. Qed.
 Print Assumptions C04_root_equal_fixed_empty.
+
+(* ---------- from trie content to the state-root HASH (C02, layer A, imported read-only) ---------- *)
+(* [repr_state H akey skey leaf ops t]: [ops] is a history of account-trie updates/deletes (C02's [run]) whose
+   last-write content is the account map [t], each leaf being [leaf nonce codehash storage_root] with
+   storage_root the root hash of SOME storage-trie history whose content is the account's storage map.
+   For every hash function H, key encodings and leaf encoder: whatever histories the two executions used to
+   arrive at their finalised tries, the state roots are equal ... *)
+Theorem C04_root_hash_equal_nodelete : forall (H : bytes -> bytes) akey skey leaf s body ops1 ops2,
+  good s -> p002 s = true -> rinv s -> Forall (item_ok true false) body ->
+  repr_state H akey skey leaf ops1 (fin_trie false false (after_revert body s)) ->
+  repr_state H akey skey leaf ops2 (fin_trie false false s) ->
+  trie_root H ops1 = trie_root H ops2.
+Proof.
+  intros H akey skey leaf s body ops1 ops2 [Hw Hb] Hp Hr Hok. apply state_root_equal. apply root_equal_nodelete; auto.
+Qed.
+Print Assumptions C04_root_hash_equal_nodelete.
+
+(* ... and so is the storage root inside every surviving account leaf. *)
+Theorem C04_storage_root_hash_equal_nodelete : forall (H : bytes -> bytes) skey s body a ac1 ac2 ops1 ops2,
+  good s -> p002 s = true -> rinv s -> Forall (item_ok true false) body ->
+  fin_trie false false (after_revert body s) !! a = Some ac1 -> fin_trie false false s !! a = Some ac2 ->
+  repr_store skey ops1 (a_store ac1) -> repr_store skey ops2 (a_store ac2) ->
+  trie_root H ops1 = trie_root H ops2.
+Proof.
+  intros H skey s body a ac1 ac2 ops1 ops2 [Hw Hb] Hp Hr Hok. apply storage_root_equal. apply root_equal_nodelete; auto.
+Qed.
+Print Assumptions C04_storage_root_hash_equal_nodelete.
+
+Theorem C04_root_hash_equal_fixed_empty : forall (H : bytes -> bytes) akey skey leaf s body ops1 ops2,
+  good s -> p002 s = true -> rinv s -> no_empty_leaf (trie s) -> Forall (item_ok true false) body ->
+  repr_state H akey skey leaf ops1 (fin_trie true true (after_revert body s)) ->
+  repr_state H akey skey leaf ops2 (fin_trie true true s) ->
+  trie_root H ops1 = trie_root H ops2.
+Proof.
+  intros H akey skey leaf s body ops1 ops2 [Hw Hb] Hp Hr Hne Hok. apply state_root_equal. apply root_equal_fixed_empty; auto.
+Qed.
+Print Assumptions C04_root_hash_equal_fixed_empty.
+
+(* the representation hypotheses are satisfiable (one account with one storage slot) *)
+Example C04_root_hash_example : forall H : bytes -> bytes, repr_example_stmt H.
+Proof. exact repr_example. Qed.
+
+(* ---------- the continuation clause: further surviving writes after the revert ---------- *)
+(* After the revert, run ANY guarded continuation (all mutators, further nested snapshots/reverts): the
+   result is byte-exact equivalent to running the same continuation on the state at snapshot time, every
+   listed query answers the same, and Finalise(false) writes the same account trie — hence (previous
+   theorems' lifting) the same root hash.  Guard: no zero-amount AddFT (touch), self-destruct or
+   GetCommittedState in the reverted part or in the continuation; C04_touch_disarmed_refuted shows the
+   touch guard is necessary (a reverted touch leaves the dirty callback disarmed). *)
+Theorem C04_continuation : forall s body cont q,
+  good s -> p002 s = true -> rinv s ->
+  Forall (item_ok true false) body -> Forall (item_ok true false) cont ->
+  let x := fst (run cont (after_revert body s)) in
+  let y := fst (run cont s) in
+  observe q x = observe q y /\ fin_trie false false x = fin_trie false false y.
+Proof.
+  intros s body cont q [Hw Hb] Hp Hr Hbody Hcont. cbv zeta.
+  destruct (continuation s body cont Hw Hb Hp Hr Hbody Hcont) as (Hs&Hf&_).
+  split; [eapply observe_sim; [exact Hs | left; reflexivity] | exact Hf].
+Qed.
+Print Assumptions C04_continuation.
+
+Theorem C04_continuation_root_hash : forall (H : bytes -> bytes) akey skey leaf s body cont ops1 ops2,
+  good s -> p002 s = true -> rinv s ->
+  Forall (item_ok true false) body -> Forall (item_ok true false) cont ->
+  repr_state H akey skey leaf ops1 (fin_trie false false (fst (run cont (after_revert body s)))) ->
+  repr_state H akey skey leaf ops2 (fin_trie false false (fst (run cont s))) ->
+  trie_root H ops1 = trie_root H ops2.
+Proof.
+  intros H akey skey leaf s body cont ops1 ops2 [Hw Hb] Hp Hr Hbody Hcont. apply state_root_equal.
+  apply (continuation s body cont Hw Hb Hp Hr Hbody Hcont).
+Qed.
+Print Assumptions C04_continuation_root_hash.
+
+(* each guarded operation respects the equivalence (the step behind the continuation theorem) *)
+Theorem C04_step_congruence : forall o x y, sim true x y -> op_ok true false o -> sim true (fst (step o x)) (fst (step o y)).
+Proof. exact step_cong. Qed.
+Print Assumptions C04_step_congruence.
+
+(* ---------- outcomes at the edges ---------- *)
+(* the model's operations are total functions; exactly one of them stands for a Go panic *)
+Theorem C04_panics_only_on_refund_underflow : forall o s,
+  snd (step o s) = APanic <-> exists n, o = OSubRefund n /\ refund s < n.
+Proof. exact step_panic_iff. Qed.
+Print Assumptions C04_panics_only_on_refund_underflow.
+
+(* a revision id that is not live leaves the model state unchanged (Go: panic before any undo) ... *)
+Theorem C04_revert_invalid_id : forall id s, (forall p, p ∈ revs s -> p.1 <> id) -> revert id s = s.
+Proof. exact revert_invalid. Qed.
+Print Assumptions C04_revert_invalid_id.
+
+(* ... and a revision id can be used once *)
+Theorem C04_revert_id_used_once : forall ex tch s body,
+  wf_al s -> rb s -> p002 s = true -> Forall (item_ok ex tch) body ->
+  revert (snd (snapshot s)) (after_revert body s) = after_revert body s.
+Proof. exact revert_twice_invalid. Qed.
+Print Assumptions C04_revert_id_used_once.
+
+(* getAccountObject/createObject with the deleted flag: resetObjectChange is unreachable, and an object
+   flagged deleted by Finalise/Commit makes its address dead for the rest of the AccountDB's life *)
+Theorem C04_reset_object_unreachable : forall cache in_trie create,
+  (get_account_object cache in_trie create).1.2 <> CResetObject.
+Proof. exact reset_object_unreachable. Qed.
+Print Assumptions C04_reset_object_unreachable.
+
+Theorem C04_deleted_object_is_dead : forall in_trie create,
+  get_account_object (Some true) in_trie create = (None, CNone, Some true).
+Proof. exact deleted_is_dead. Qed.
+Print Assumptions C04_deleted_object_is_dead.
 
 Theorem C04_reachable_rinv : forall tr cs tok th prog,
   trie_ok tr -> Forall (item_ok true false) prog -> rinv (fst (run prog (fresh tr cs tok true th))).
